@@ -116,6 +116,45 @@ func run(c gcase) []seqmc.Violation {
 	return nil
 }
 
+// runKinds: items of unusual kinds - the nil interface value, a typed nil
+// pointer, zero values, an empty struct - are items like any other: inserted,
+// coalesced and delivered in order with their duplicate counts, and a consumer
+// sees every one of them before it is told the queue is closed.
+func runKinds(order []int, dupOf int) []seqmc.Violation {
+	var np *int
+	kinds := []interface{}{nil, np, 0, "", struct{}{}, "x"}
+	q := coalesce.NewQueue()
+	desc := fmt.Sprintf("items %v (indexes into {nil, (*int)(nil), 0, \"\", struct{}{}, \"x\"}), item %d inserted twice more", order, dupOf)
+	for _, k := range order {
+		if ok, err := q.Insert(kinds[k]); !ok || err != nil {
+			return vio("insert-result", "%s: first Insert(%#v) = (%v, %v)", desc, kinds[k], ok, err)
+		}
+	}
+	for r := 0; r < 2; r++ {
+		if ok, err := q.Insert(kinds[dupOf]); ok || err != nil {
+			return vio("insert-result", "%s: repeated Insert(%#v) = (%v, %v), want coalesced", desc, kinds[dupOf], ok, err)
+		}
+	}
+	if q.Len() != len(order) {
+		return vio("len", "%s: Len() = %d, %d items pending", desc, q.Len(), len(order))
+	}
+	q.Close()
+	for i, k := range order {
+		it, d, err := q.Next(context.Background())
+		wantD := uint32(0)
+		if k == dupOf {
+			wantD = 2
+		}
+		if err != nil || it != kinds[k] || d != wantD {
+			return vio("order-or-duplicates", "%s: delivery %d = (%#v, dup %d, %v), expected (%#v, dup %d)", desc, i, it, d, err, kinds[k], wantD)
+		}
+	}
+	if it, _, err := q.Next(context.Background()); it != nil || !coalesce.IsClosedQueue(err) {
+		return vio("closed-not-reported", "%s: Next on the closed, drained queue = (%v, %v)", desc, it, err)
+	}
+	return nil
+}
+
 type harness struct{}
 
 func (harness) Property() string { return "C11" }
@@ -132,9 +171,38 @@ func (harness) Specs(tier string) []seqmc.Spec {
 			}
 		}
 	}
+	// all ordered selections of 1-3 distinct item kinds out of 6, each member in turn the re-inserted one
+	type kc struct {
+		order []int
+		dup   int
+	}
+	var kcs []kc
+	var rec func(cur []int)
+	rec = func(cur []int) {
+		if len(cur) > 0 {
+			for _, d := range cur {
+				kcs = append(kcs, kc{append([]int{}, cur...), d})
+			}
+		}
+		if len(cur) == 3 {
+			return
+		}
+		for k := 0; k < 6; k++ {
+			used := false
+			for _, c := range cur {
+				used = used || c == k
+			}
+			if !used {
+				rec(append(cur, k))
+			}
+		}
+	}
+	rec(nil)
 	return []seqmc.Spec{{Name: fmt.Sprintf("burst 0..%d x slide 0..%d x re-insert period {none, 3}, drained, closed", max, max), N: len(cases), Run: func(i int) (string, bool, []seqmc.Violation) {
 		c := cases[i]
 		return fmt.Sprintf("%+v", c), c.burst > 8, run(c)
+	}}, {Name: "items of unusual kinds (nil interface, typed nil pointer, zero values, empty struct): 1-3 pending, one re-inserted, drained after close", N: len(kcs), Run: func(i int) (string, bool, []seqmc.Violation) {
+		return fmt.Sprintf("%+v", kcs[i]), true, runKinds(kcs[i].order, kcs[i].dup)
 	}}}
 }
 
